@@ -8,4 +8,5 @@ def run_check(tier, seed, replay=None):
         suites=[("proto", "c14", ["--n", str(n), "--reps", str(reps)], "protocol")],
         required_tags=["c14-model", "wellformed", "c14-sweep", "c14-badvalue"],
         required_results=["Ok", "Err:ConsumerStopRequested", "Err:ConsumerError"],
+        extra_cov=(lambda: {"apalache_inductive_invariant": apalache_check("ProtocolInv.tla")}) if tier == "thorough" else None,
         assumptions=BASE_ASSUMPTIONS + ["the consumer's own error value is a unique token per callback position, recovered through Display of the returned error"])
